@@ -1,6 +1,6 @@
 \* Bucket-layer refinement: the transcribed algorithms give the fact-level answers (C01, C02, C12, C13).
 CONSTANTS
-  GraphIds = {1,2,3,4,5,6,7,8,9,10,11}
+  GraphIds = {1,2,3,4,5,6,7,8,9,10,11,12}
   MaxTip = 2
   Mat = 2
   LeaseIds = {1}
